@@ -97,6 +97,34 @@ def dashu_r2f(n, d):
         return sign * math.inf
 
 
+def dashu_encode(m, e):
+    """dashu-base 0.4.1 `f64::encode(mantissa, exponent)` for a positive mantissa and a normal result: the sticky bit is
+    computed from the low 10 dropped bits only (bit 10 of the normalised mantissa is ignored)."""
+    zeros = 64 - m.bit_length()
+    if 64 - zeros + e > 1024:
+        return math.inf
+    mant = 0 if m == 1 else (m << (zeros + 1)) & ((1 << 64) - 1)
+    expf = e + 1023 + 64 - zeros - 1
+    bits = (expf << 52) | (mant >> 12)
+    rb = ((mant >> 10) & 0b110) | (1 if mant & 0x3ff else 0)
+    if rb & 0b11 and (rb >= 0b110 or rb == 0b011):
+        bits += 1
+    return b2f(bits)
+
+
+def dashu_i2f(z):
+    """IBig::to_f64 of dashu-int 0.4.2: exact cast up to 64 bits, else the top 63 bits | sticky through f64::encode"""
+    a = abs(z)
+    n = a.bit_length()
+    if n <= 64:
+        return float(z)
+    if n > 1024:
+        return math.copysign(math.inf, z)
+    top = a >> (n - 63)
+    extra = 1 if a & ((1 << (n - 63)) - 1) else 0
+    return math.copysign(dashu_encode(top | extra, n - 63), z)
+
+
 # ------------------------------------------------------------------ expressions
 # ("i", z) | ("f", bits) | ("c", name) | ("un", op, e) | ("bin", op, a, b)
 CONSTS = {"pi": 0x400921FB54442D18, "e": 0x4005BF0A8B145769, "epsilon": 0x3CB0000000000000}
@@ -183,7 +211,8 @@ LIMIT_BITS = 2600
 
 class Mirror:
     def __init__(self, dashu=False):
-        self.dashu = dashu
+        self.dashu_q = dashu in (True, "q", "qi")     # emulate RBig::to_f64
+        self.dashu_i = dashu in ("i", "qi")           # emulate IBig::to_f64
         self.calls = []          # (fid, abits, bbits, rbits)
         self.flags = set()
 
@@ -195,8 +224,8 @@ class Mirror:
         self.flags.add("mixed")
         try:
             if k == "i":
-                r = float(x)
-            elif self.dashu:
+                r = dashu_i2f(x) if self.dashu_i else float(x)
+            elif self.dashu_q:
                 r = dashu_r2f(x.numerator, x.denominator)
             else:
                 r = x.numerator / x.denominator
@@ -369,8 +398,8 @@ class Mirror:
                 raise EvalErr("undefined")
             fa = self.to_f(a)
             fb = self.to_f(b)
-            if fa == 0 and fb < 0:
-                raise Skip()         # +-pi depending on the sign of zero, which the implementation does not keep reliably
+            if fa == 0 and fb <= 0:
+                raise Skip()         # 0 or +-pi depending on the signs of the zeros, which the implementation does not keep reliably
             return self.lib(10, fa, fb)
         # max / min
         if a[0] == b[0] and a[0] in ("i", "q"):
@@ -551,6 +580,9 @@ def gen_cases(ctx, fpool):
                  (("i", 3), ("f", f2b(2.5))), (("i", -(1 << 1100)), ("f", f2b(1.0))), (("f", 0), ("f", 1 << 63)), (("i", 0), ("f", 1 << 63))):
         for o in ("max", "min"):
             T += [("bin", o, a, b), ("bin", o, b, a)]
+    for z in (((1 << 54) + 3) << 100, -(((1 << 54) + 3) << 900), ((1 << 60) + 1536 + 1024) << 70):
+        T += [("un", "float", ("i", z)), ("bin", "add", ("i", z), ("f", f2b(1.0))), ("bin", "div", ("i", z), ("i", 3))]
+    T += [("un", "float", ("bin", "rdiv", ("i", 7), ("i", 3))), ("bin", "mul", ("bin", "rdiv", ("i", 7), ("i", 3)), ("f", f2b(1.0)))]
     cases += T
     # (5) nested, depth <= 3
     bins = ["add", "sub", "mul", "div", "add", "sub", "mul", "div", "pow", "ipow", "max", "min", "atan2"]
@@ -673,6 +705,25 @@ def obs_of_outcome(o):
     return {"zero_divisor": "OZeroDiv", "undefined": "OUndefined", "float_overflow": "OOverflow"}[k]
 
 
+KNOWN_KEYS = {"q": "float:rat-to-float-double-rounding", "i": "float:bigint-to-float-misrounding",
+              "qi": "float:rat-and-bigint-to-float-misrounding"}
+KNOWN_WHAT = {"q": "a rational is converted to a double that is not the nearest one (two roundings in RBig::to_f64)",
+              "i": "an integer of more than 64 bits is converted to a double that is not the nearest one (IBig::to_f64 -> f64::encode ignores one sticky bit: a value above a midpoint is rounded as a tie)",
+              "qi": "both a rational and a big integer operand are converted to doubles that are not the nearest ones"}
+
+
+def attribute(e, out, impl_out):
+    """is the implementation's result what the model gives once dashu's conversions are emulated? -> 'q' | 'i' | 'qi' | None"""
+    for mode in ("q", "i", "qi"):
+        try:
+            d = mirror_run(e, dashu=mode)[0]
+        except Exception:
+            continue
+        if d != out and d == impl_out:
+            return mode
+    return None
+
+
 def ulp_diff(b1, b2):
     def key(b):
         return -(b & ~(1 << 63)) if b >> 63 else b
@@ -729,7 +780,7 @@ def run(ctx):
             bools.append("check %s %s %s" % (tb, ce, o[0]))
             meta.append((e, path, o, out, calls))
     dist["paths_differ"] = paths_differ
-    bad, errs = core.coq_eval_bools(ctx.prop, IMPORTS, bools, chunk=max(300, min(ctx.scale(900, 3000), -(-len(bools) // core.NPROC))), timeout=900)
+    bad, errs = core.coq_eval_bools(ctx.prop, IMPORTS, bools, chunk=max(300, min(ctx.scale(900, 1500), -(-len(bools) // core.NPROC))), timeout=ctx.scale(900, 3000))
     tie_breaks = [{"kind": "coq-eval", "what": "model evaluation shard failed", "detail": t} for _, t in errs]
 
     failures = []
@@ -748,22 +799,19 @@ def run(ctx):
         for j in mbad[:3]:
             e = meta[bad[j]][0]
             tie_breaks.append({"kind": "mirror", "what": "the generator's Python mirror and the Coq model disagree", "detail": "X is %s. mirror=%s" % (to_prolog(e)[:300], outcome_text(meta[bad[j]][3]))})
-    dist["rat_to_float_double_rounding_cases"] = 0
+    dist["misrounded_conversion_cases"] = {}
     dist["libm_within_4ulp"] = 0
     for i in bad:
         e, path, o, out, calls = meta[i]
-        # explained by dashu's double rounding in RBig::to_f64 ?  (known finding)
-        try:
-            d_out, _, d_flags = mirror_run(e, dashu=True)
-        except Exception:
-            d_out, d_flags = None, set()
-        if i in mirror_ok and d_out is not None and d_out != out and d_out == o[2]:
-            dist["rat_to_float_double_rounding_cases"] += 1
-            key = "float:rat-to-float-double-rounding"
+        # explained by dashu's conversions (RBig::to_f64 / IBig::to_f64) not being correctly rounded ?
+        mode = attribute(e, out, o[2]) if i in mirror_ok else None
+        if mode:
+            dist["misrounded_conversion_cases"][mode] = dist["misrounded_conversion_cases"].get(mode, 0) + 1
+            key = KNOWN_KEYS[mode]
             if reported.get(key, 0) < 3:
                 reported[key] = reported.get(key, 0) + 1
-                failures.append({"key": key, "what": "a rational is converted to a double that is not the nearest one (two roundings in RBig::to_f64)",
-                                 "input": "X is %s." % to_prolog(e), "path": path, "impl": o[1], "spec": outcome_text(out), "property_fails": True})
+                failures.append({"key": key, "what": KNOWN_WHAT[mode], "input": "X is %s." % to_prolog(e), "path": path, "impl": o[1],
+                                 "spec": outcome_text(out), "property_fails": True})
             continue
         unexplained.append(i)
     if unexplained:
@@ -805,14 +853,8 @@ def run(ctx):
             if out[0] == "f" and o[2][0] == "f" and "libm" in mirror_run(s)[2] and 0 < ulp_diff(out[1], o[2][1]) <= 4:
                 dist["libm_within_4ulp"] += 1
                 continue
-            try:
-                d_out = mirror_run(s, dashu=True)[0]
-            except Exception:
-                d_out = None
-            if d_out is not None and d_out != out and d_out == o[2]:
-                key = "float:rat-to-float-double-rounding"
-            else:
-                key = failure_key(s)
+            mode = attribute(s, out, o[2])
+            key = KNOWN_KEYS[mode] if mode else failure_key(s)
             if reported.get(key, 0) >= 3:
                 continue
             reported[key] = reported.get(key, 0) + 1
